@@ -110,11 +110,25 @@ func (rcImporter) Import(path string) (*types.Package, error) {
 	return pkg, nil
 }
 
+// rcLoaded: one type-check per package and run (the families FieldLocks, Globals and ApiArgs share the result and
+// treat it as read-only).
+var rcLoaded = map[*pkgSrc]*rcPkg{}
+
 func rcLoad(src *pkgSrc, prefix, rel string) *rcPkg {
+	if p := rcLoaded[src]; p != nil && p.prefix == prefix && p.rel == rel {
+		return p
+	}
+	p := rcLoadFresh(src, prefix, rel)
+	rcLoaded[src] = p
+	return p
+}
+
+func rcLoadFresh(src *pkgSrc, prefix, rel string) *rcPkg {
 	p := &rcPkg{prefix: prefix, rel: rel, src: src, fields: map[types.Object]*rcFieldDecl{}, tracked: map[string]bool{},
 		declOf: map[types.Object]*ast.FuncDecl{}, byName: map[string][]*ast.FuncDecl{}, fileOf: map[*ast.FuncDecl]string{}}
 	p.info = &types.Info{Types: map[ast.Expr]types.TypeAndValue{}, Uses: map[*ast.Ident]types.Object{},
-		Defs: map[*ast.Ident]types.Object{}, Selections: map[*ast.SelectorExpr]*types.Selection{}}
+		Defs: map[*ast.Ident]types.Object{}, Selections: map[*ast.SelectorExpr]*types.Selection{},
+		Implicits: map[ast.Node]types.Object{}}
 	var files []*ast.File
 	for _, n := range src.sortedFiles() {
 		files = append(files, src.files[n])
